@@ -27,6 +27,10 @@ def run(ctx):
         "outcomes; (R7) with the capability present exactly the native RENAMESCRIPT is sent and none of the emulation "
         "steps.")
     ctx.not_decided = "content equality modulo line endings (depends on C17 decoders), the server's own atomicity."
+    rename_rules(ctx, R)
+
+
+def rename_rules(ctx, R, only=None):
     f = R.methods.get("renamescript")
     if f is None:
         raise AnalysisError("R", "Client.renamescript not found")
